@@ -27,8 +27,12 @@ DrvKinds == {"drv_map", "drv_filter", "drv_map_count", "drv_filter_count", "drv_
 RecvKinds == {"rv_idx_read", "rv_idx_write", "rv_idx_opwrite", "rv_push", "rv_len", "rv_fld_read", "rv_fld_write", "rv_fld_opwrite", "rv_method",
               "rv_idx_expr", "rv_arg", "rv_is"}
 
+(* fifth family: the literal *writes* the captured variable (op-assignment, modify); callers on the stack own a  *)
+(* variable of the same name, which must stay untouched; a module-level function does the same to a module variable *)
+WrKinds == {"wr_opadd", "wr_opsub", "wr_opmul", "wr_modify", "wr_opadd_loop", "wr_opadd_if", "wr_opadd_nested"}
+
 VARIABLES pos, modx
-Init == pos \in Positions \cup ModKinds \cup ClosKinds \cup DrvKinds \cup RecvKinds /\ modx \in BOOLEAN
+Init == pos \in Positions \cup ModKinds \cup ClosKinds \cup DrvKinds \cup RecvKinds \cup WrKinds /\ modx \in BOOLEAN
 Next == UNCHANGED <<pos, modx>>
 
 FT == "fn() -> int"
@@ -142,6 +146,31 @@ RvProg ==
       Print(Call(V("f"), <<>>)), Print(Call(V("o"), <<>>)), Print(Call(V("use2"), <<V("f")>>)), Print(Call(V("o"), <<>>))>>
     \o (IF modx THEN <<Print(V("xs")), Print(Fld(V("bx"), "v"))>> ELSE <<>>) \o <<Print(S("end"))>>
 
+WrBody(p) ==
+    CASE p = "wr_opadd" -> <<Assign(X, "+", I(1)), Ret(X)>>
+      [] p = "wr_opsub" -> <<Assign(X, "-", I(2)), Ret(X)>>
+      [] p = "wr_opmul" -> <<Assign(X, "*", I(2)), Ret(X)>>
+      [] p = "wr_modify" -> <<Modify("x", Bin("+", X, I(1))), Ret(X)>>
+      [] p = "wr_opadd_loop" -> <<From(I(0), I(2), FALSE, <<>>, "", <<Assign(X, "+", I(1))>>), Ret(X)>>
+      [] p = "wr_opadd_if" -> <<If(Bin("<", X, I(1000)), <<Assign(X, "+", I(1))>>), Ret(X)>>
+      [] p = "wr_opadd_nested" -> <<Let("inner", Fn("inner", <<>>, "int", <<Assign(X, "+", I(1)), Ret(X)>>)), Ret(Call(V("inner"), <<>>))>>
+WrProg ==
+    (IF modx THEN <<Let("x", I(50))>> ELSE <<>>) \o
+    <<Let("mk", Fn("mk", <<>>, FT, <<Let("x", I(3)), Ret(Fn("lit", <<>>, "int", WrBody(pos)))>>)),
+      Let("f", Call(V("mk"), <<>>)),
+      Let("use", Fn("use", <<P("g", FT)>>, "int", <<Let("x", I(99)), Let("r", Call(V("g"), <<>>)), Print(X), Ret(V("r"))>>)),
+      Let("usep", Fn("usep", <<P("g", FT), P("x", "int")>>, "int", <<Let("r", Call(V("g"), <<>>)), Print(X), Ret(V("r"))>>)),
+      Let("use2", Fn("use2", <<P("g", FT)>>, "int", <<Ret(Call(V("g"), <<>>))>>)),
+      Print(MCall(V("f"), "is_closure", <<>>)),
+      Print(Call(V("f"), <<>>)), Print(Call(V("use"), <<V("f")>>)), Print(Call(V("usep"), <<V("f"), I(200)>>)), Print(Call(V("use2"), <<V("f")>>))>>
+    \o (IF modx THEN
+          \* a module-level function writing the module-level x, called below a frame that owns an x
+          <<Let("bump", Fn("bump", <<>>, "int", WrBody(pos))),
+            Let("use3", Fn("use3", <<>>, "int", <<Let("x", I(7)), Let("r", Call(V("bump"), <<>>)), Print(X), Ret(V("r"))>>)),
+            Print(Call(V("use3"), <<>>)), Print(Call(V("bump"), <<>>)), Print(X)>>
+        ELSE <<>>)
+    \o <<Print(S("end"))>>
+
 ClosProg ==
     (IF modx THEN <<Let("cur", Fn("zero", <<>>, "int", <<Ret(I(0))>>))>> ELSE <<>>) \o
     <<Let("mkc", Fn("mkc", <<>>, FT, <<Let("n", I(0)), Ret(Fn("cnt", <<>>, "int", <<Modify("n", Bin("+", V("n"), I(1))), Ret(V("n"))>>))>>)),
@@ -158,6 +187,7 @@ ClosProg ==
 
 Prog ==
     IF pos \in ClosKinds THEN ClosProg ELSE
+    IF pos \in WrKinds THEN WrProg ELSE
     IF pos \in RecvKinds THEN RvProg ELSE
     IF pos \in DrvKinds THEN DrvProg ELSE
     IF pos \in ModKinds THEN ModProg ELSE
